@@ -30,3 +30,28 @@ Theorem C13_singleton_vector_is_not_a_scalar : forall d x,
   literal_dims (LList d [x]) <> literal_dims (LScalar d x).
 Proof. exact const_repr_keeps_rank_of_singleton. Qed.
 Print Assumptions C13_singleton_vector_is_not_a_scalar.
+
+(* ---- repair variants (C13_04 nan / inf not inlined, C13_09 the empty vector not inlined): `const_repr_fx fin ne`;
+   the harness decides by probe which flags the implementation shows and compares against that variant ---- *)
+Theorem C13_const_repr_fx_as_read : forall ht d dims data, const_repr_fx false false ht d dims data = const_repr ht d dims data.
+Proof. exact const_repr_fx_as_read. Qed.
+Print Assumptions C13_const_repr_fx_as_read.
+
+Theorem C13_const_repr_fx_inlines_less : forall fin ne ht d dims data l,
+  const_repr_fx fin ne ht d dims data = Some l -> const_repr ht d dims data = Some l.
+Proof. exact const_repr_fx_sub. Qed.
+Print Assumptions C13_const_repr_fx_inlines_less.
+
+Theorem C13_const_repr_repaired_printable : forall ht d dims data l,
+  const_repr_fx true true ht d dims data = Some l ->
+  has_nonfinite d (literal_data l) = false /\ (forall e, l <> LList e []).
+Proof. exact const_repr_fx_printable. Qed.
+Print Assumptions C13_const_repr_repaired_printable.
+
+(* the rule as read inlines nan and the empty vector (known findings C13:inline_const:non-finite-literal, :empty-list-literal) *)
+Theorem C13_const_repr_unprintable_refuted :
+  const_repr true FLOAT [] [2143289344%Z] = Some (LScalar FLOAT 2143289344%Z) /\ has_nonfinite FLOAT [2143289344%Z] = true /\
+  const_repr true FLOAT [0] [] = Some (LList FLOAT []) /\
+  const_repr_fx true true true FLOAT [] [2143289344%Z] = None /\ const_repr_fx true true true FLOAT [0] [] = None.
+Proof. exact const_repr_unprintable_refuted. Qed.
+Print Assumptions C13_const_repr_unprintable_refuted.
